@@ -1401,6 +1401,14 @@ func (w *envelopingWriter) writeBytes(data []byte) (int, error) {
 
 func (w *envelopingWriter) handleEnvelopeWritten() error {
 	w.writingEnvelope = false
+	if w.rw.op.serverEnveloper == nil {
+		// The server protocol has no envelopes: the single message was announced by
+		// a content-length header and has been written completely.
+		err := errors.New("handler wrote more data than the declared content-length")
+		w.err = err
+		w.rw.reportError(err)
+		return err
+	}
 	env, err := w.rw.op.serverEnveloper.decodeEnvelope(w.env)
 	if err != nil {
 		err = malformedRequestError(err)
@@ -1531,7 +1539,7 @@ func (w *envelopingWriter) maybeInit() {
 		return
 	}
 	w.current = w.w
-	w.remainingBytes = envelopeLen
+	w.remainingBytes = w.rw.contentLen
 }
 
 func (w *envelopingWriter) handleTrailer() error {
